@@ -183,6 +183,7 @@ def _freq_filter(ts, si, b, axis=None, typ="lp"):
     """
     if axis is None:
         axis = ts.ndim - 1
+    axis = axis % ts.ndim
     ns = ts.shape[axis]
     f = fscale(ns, si=si, one_sided=True)
     if typ == "bp":
@@ -190,7 +191,7 @@ def _freq_filter(ts, si, b, axis=None, typ="lp"):
     else:
         filc = _freq_vector(f, b, typ=typ)
     if axis < (ts.ndim - 1):
-        filc = filc[:, np.newaxis]
+        filc = filc.reshape([-1] + [1] * (ts.ndim - 1 - axis))
     return np.real(
         np.fft.ifft(np.fft.fft(ts, axis=axis) * fexpand(filc, ns, axis=0), axis=axis)
     )
